@@ -134,6 +134,30 @@ def F34():
     m = model_matrix("center(`my col`) + my_col", d, context={})
     got = m.model_spec.get_model_matrix(d.iloc[:1], context={})
     return not np.allclose(got.values, m.values[:1])
+def F35():
+    ms = Formula("a + a:b").get_model_matrix(df, context={}).model_spec
+    return exc(lambda: ms.differentiate("a").get_model_matrix(df)) is not None
+def F36():
+    from formulaic.parser.types import Term, Factor
+    f = Formula("0 + a + b + a:b")
+    try:
+        f[0:2] = [Term([Factor("c")]), Term([Factor("d")])]
+    except Exception:
+        return True
+    return [str(t) for t in f] != ["c", "d", "a:b"]
+def F37():
+    from formulaic.utils.structured import Structured
+    seen = []
+    def f(x, ctx=None):
+        seen.append(x)
+        if x == 2:
+            raise TypeError("boom")
+        return x
+    try:
+        Structured((1, 2, 3))._map(f)
+    except TypeError:
+        pass
+    return seen != [1, 2]
 
 ids = sys.argv[1:] or [f"F{i}" for i in range(1, 26)]
 for i in ids:
